@@ -1002,9 +1002,16 @@ func itrsInitWithLimit(ctx *idKeyCursorContext, span *tracing.Span, schema *exec
 	avg := tagSet.Len()/step + 1
 	itrs := make(comm.KeyCursors, 0, avg)
 	topNList := NewTopNLinkedList(schema.Options().GetLimit()+schema.Options().GetOffset(), schema.Options().IsAscending())
+	var unranked []*seriesCursor
+	closeAll := func() {
+		topNList.Close()
+		for _, itr := range unranked {
+			util.MustClose(itr)
+		}
+	}
 	for i := start; i < tagSet.Len(); i += step {
 		if ctx.IsAborted() {
-			topNList.Close()
+			closeAll()
 			return nil, errno.NewError(errno.QueryAborted)
 		}
 		var itr *seriesCursor
@@ -1015,19 +1022,29 @@ func itrsInitWithLimit(ctx *idKeyCursorContext, span *tracing.Span, schema *exec
 			itr, err = newSeriesCursorLazyInit(ctx, span, schema, tagSet, i, true)
 		}
 		if err != nil {
-			topNList.Close()
+			closeAll()
 			return nil, err
 		}
-		if itr != nil {
-			topNList.Insert(itr)
+		if itr == nil {
+			continue
 		}
+		// limitFirstTime is the bound of the first chunk that overlaps the query's time range. When it lies outside the
+		// range the first returned row of the series is unknown (any later time is possible), so the series cannot be
+		// ranked against the others and must be kept.
+		if itr.limitFirstTime < ctx.tr.Min || itr.limitFirstTime > ctx.tr.Max {
+			unranked = append(unranked, itr)
+			continue
+		}
+		topNList.Insert(itr)
 	}
 
 	canNotAggOnSeries := CanNotAggOnSeriesFunc(schema.Calls())
-	if topNList.head != nil {
-		nowNode := topNList.head
-		for {
-			itr := nowNode.item
+	kept := unranked
+	for nowNode := topNList.head; nowNode != nil; nowNode = nowNode.next {
+		kept = append(kept, nowNode.item)
+	}
+	if len(kept) > 0 {
+		for _, itr := range kept {
 			var itrAgg comm.KeyCursor
 			if !canNotAggOnSeries && (len(schema.Calls()) > 0 && (!havePreAgg || schema.Options().IsPromQuery())) {
 				if !schema.Options().IsPromQuery() {
@@ -1055,11 +1072,6 @@ func itrsInitWithLimit(ctx *idKeyCursorContext, span *tracing.Span, schema *exec
 				itrs = append(itrs, itrAgg)
 			} else {
 				itrs = append(itrs, itr)
-			}
-			if nowNode.next == nil {
-				break
-			} else {
-				nowNode = nowNode.next
 			}
 		}
 	}
